@@ -11,6 +11,8 @@
 -/
 import QlibcModel.ListTbl.History
 import QlibcModel.ListTbl.UrlRt
+import QlibcModel.ListTbl.Args
+import QlibcModel.HashTbl.DecLemmas
 
 namespace Qlibc.Props.C08
 open Qlibc Qlibc.ListTbl
@@ -121,6 +123,47 @@ theorem history_refines (o : Opts) (ops : List Op) : SpecRun o [] ops (run h (in
 /-- the representation invariant holds in every reachable state -/
 theorem reachable_inv (o : Opts) (ops : List Op) : Inv h (runState h (init o) ops) :=
   runState_inv h (inv_init h o) ops
+
+/-- getint of any stored value is `atoll` (base 10, see C05.atoll_reads_base10) of the first match
+    in lookup direction, 0 when there is none -/
+theorem getint_spec {t : Tbl} (I : Inv h t) (k : Bytes) :
+    getint t k (h k) =
+      (match ((dir t.opts (entries t)).find? (keyIs t.opts k)).map (·.2) with
+       | none => .ok 0 | some d => Dec.atoll d) := by
+  unfold getint
+  rw [get_eq h I k]
+  cases ((dir t.opts (entries t)).find? (keyIs t.opts k)).map (·.2) <;> rfl
+
+/-- NULL name / data / string, size 0, NULL path: EINVAL and an unchanged table; remove(NULL) = 0,
+    removeobj(NULL) = false, getnext(NULL obj) = false, debug(NULL) = false/EIO — also unchanged -/
+theorem null_args_rejected (t : Tbl) (k : KeyArg) (d : Option Bytes) (n : Int) (f : Bytes) (key : KeyArg) :
+    putA t none d = .ok (t, false, .einval) ∧ putA t k none = .ok (t, false, .einval) ∧
+    putA t k (some []) = .ok (t, false, .einval) ∧
+    putstrA t none d = .ok (t, false, .einval) ∧ putstrA t k none = .ok (t, false, .einval) ∧
+    putstrfA t none f = .ok (t, false, .einval) ∧ putintA t none n = .ok (t, false, .einval) ∧
+    getA t none = (none, .einval) ∧ getintA t none = (.ok 0, .einval) ∧
+    removeA t none = .ok (0, t) ∧ removeobjA t none = .ok (false, t) ∧ getnextA t none key = .ok none ∧
+    debugA false = (false, .eio) ∧ saveNullPath = (false, .einval) := by
+  refine ⟨rfl, ?_, ?_, rfl, ?_, rfl, rfl, rfl, rfl, rfl, rfl, rfl, rfl, rfl⟩
+  · cases k <;> rfl
+  · cases k with
+    | none => rfl
+    | some kh => simp [putA, put]
+  · cases k <;> rfl
+
+/-- the two batteries of the harness op `inv` leave the table as it was and fail call by call -/
+theorem inv_is_identity (t : Tbl) :
+    runCalls invBattery t = .ok (t, List.replicate 14 (false, Err.einval)) ∧
+    runCalls invBattery2 t = .ok (t, List.replicate 4 (false, Err.none) ++ [(false, Err.eio)]) := ⟨rfl, rfl⟩
+
+/-- getmulti with a NULL name is NOT rejected by the code: the name goes to getnext, where NULL
+    means "every entry"; the result is all values in lookup order (documented neither way) -/
+theorem getmulti_null_name {t : Tbl} (I : Inv h t) :
+    getmultiA t none = .ok ((dir t.opts (entries t)).map (·.2)) := by
+  obtain ⟨cs, hw, hc⟩ := walk_all h I
+  unfold getmultiA
+  rw [hw, ← hc, List.map_map]
+  rfl
 
 /-- non-vacuity: the invariant holds initially for every option vector -/
 example (o : Opts) : Inv h (init o) := inv_init h o
